@@ -15,6 +15,7 @@ type Step struct {
 	Faults map[int]string `json:"faults,omitempty"`
 	Mids   map[int][]Env  `json:"mids,omitempty"` // environment actions right before call n is answered
 	Cbs    []string       `json:"cbs,omitempty"`  // return values of the callbacks made in this step
+	PreCb  []Env          `json:"precb,omitempty"` // rpc addv/csvtick: actions between the last answer and the csv callback
 }
 
 type Schedule struct {
@@ -96,6 +97,14 @@ func FromTokens(t int, ts TLCSchedule) Schedule {
 			if k.Cb != "" {
 				cur.Cbs = append(cur.Cbs, k.Cb)
 			}
+		case "cbv": // the csv callback of the RPC watcher, a step of its own: what came after the last answer precedes it
+			if cur != nil {
+				cur.PreCb = append(cur.PreCb, cur.Mids[ncall+1]...)
+				delete(cur.Mids, ncall+1)
+				if k.Cb != "" {
+					cur.Cbs = append(cur.Cbs, k.Cb)
+				}
+			}
 		case "cb": // a second callback decided in the same model step
 			if cur != nil && k.Cb != "" {
 				cur.Cbs = append(cur.Cbs, k.Cb)
@@ -176,6 +185,15 @@ func Random(t int, r *rand.Rand, kind string) Schedule {
 		}
 		if r.Intn(12) == 0 {
 			st.Cbs = []string{"err"}
+		}
+		if (st.Cmd == "addv" || st.Cmd == "csvtick") && r.Intn(3) == 0 {
+			for i := 0; i <= r.Intn(2); i++ {
+				e := env()
+				if e.Op == "block" {
+					tip++
+				}
+				st.PreCb = append(st.PreCb, e)
+			}
 		}
 	}
 	n := 8 + r.Intn(22)
